@@ -24,6 +24,7 @@ import (
 	"strings"
 	"sync"
 	"sync/atomic"
+	"syscall"
 	"time"
 
 	"mosn.io/api"
@@ -681,7 +682,7 @@ func runRetry(casesPath, tracePath, resPath string, shard, shards int) {
 		defer stop()
 		ups = append(ups, a)
 		hostName[a] = name
-		r := e2e.FreeAddr()
+		r := refuseAddr()
 		refs = append(refs, r)
 		hostName[r] = fmt.Sprintf("ref%d", i)
 	}
@@ -735,6 +736,12 @@ func runRetry(casesPath, tracePath, resPath string, shard, shards int) {
 		switch e.Name {
 		case "ds.new":
 			atomic.CompareAndSwapUint64(&firstRid, 0, rid)
+			return
+		}
+		if rid != atomic.LoadUint64(&firstRid) { // only the request of this run
+			return
+		}
+		switch e.Name {
 		case "ds.timeout":
 			add(vh.Ev{"ev": "tmo", "g": e.KV[1], "t": e.KV[2]})
 		case "us.attempt":
@@ -824,7 +831,7 @@ func runRetry(casesPath, tracePath, resPath string, shard, shards int) {
 		} else if mask == 0 && n%2 == 0 {
 			cname = "rr0"
 		}
-		g, t := 10000, 0
+		g, t := 6000, 0
 		if contains(c.Script, "gtmo") {
 			g = 400
 		}
@@ -891,7 +898,7 @@ func runRetry(casesPath, tracePath, resPath string, shard, shards int) {
 		if wait < 3000 {
 			wait = 3000
 		}
-		o := cl.Recv(time.Duration(wait+5000)*time.Millisecond, 0)
+		o := cl.Recv(time.Duration(wait+3000)*time.Millisecond, 0)
 		cl.Close()
 		reg.releaseAll()
 		sched.ReleaseAll()
@@ -925,6 +932,17 @@ func runRetry(casesPath, tracePath, resPath string, shard, shards int) {
 	})
 	vh.Must(err, "retry cases")
 	fmt.Printf("c17 retry runs=%d events=%d\n", n, tr.Len())
+}
+
+// refuseAddr returns a loopback address that refuses connections for the life of the process: the port is bound by a
+// socket that never listens, so no other process (e.g. another shard) can ever be given the same port.
+func refuseAddr() string {
+	fd, err := syscall.Socket(syscall.AF_INET, syscall.SOCK_STREAM, 0)
+	vh.Must(err, "socket")
+	vh.Must(syscall.Bind(fd, &syscall.SockaddrInet4{Port: 0, Addr: [4]byte{127, 0, 0, 1}}), "bind")
+	sa, err := syscall.Getsockname(fd)
+	vh.Must(err, "getsockname")
+	return fmt.Sprintf("127.0.0.1:%d", sa.(*syscall.SockaddrInet4).Port)
 }
 
 func nonNil(x []uint32) []uint32 {
